@@ -15,11 +15,13 @@ theorem mtStep_length (s : MtState) (c : Char) : (mtStep s c).v.length ≤ s.v.l
   split
   · simp
   · split
-    · split
-      · simp only [List.length_cons]
-        split <;> simp [lowerRangeRev_length]
-      · simp
     · simp
+    · split
+      · split
+        · simp only [List.length_cons]
+          split <;> simp [lowerRangeRev_length]
+        · simp
+      · split <;> simp
 
 theorem foldl_length (l : List Char) (s : MtState) : (l.foldl mtStep s).v.length ≤ s.v.length + l.length := by
   induction l generalizing s with
@@ -38,13 +40,12 @@ theorem mediatype_length (b : List Char) : (mediatype b).length ≤ b.length := 
 
 end Verif.Proofs.Mediatype
 
-/-! ## the reference behaviour, outside the two known defects -/
+/-! ## the reference behaviour -/
 
 namespace Verif.Proofs.Mediatype
 open Verif Verif.Model.DataURI
 namespace S
-export Verif.Spec.Rfc2397 (ws lower specMediatypeOK specMediatype quotesClosed quotesClosedAux trigQuoteShift
-  trigQuoteShiftAux trigBackslash)
+export Verif.Spec.Rfc2397 (ws lower specMediatypeOK specMediatype quotesClosed quotesClosedAux)
 end S
 
 theorem toLower_idem (c : Char) : toLower (toLower c) = toLower c := by
@@ -339,19 +340,15 @@ end Verif.Proofs.Mediatype
 namespace Verif.Proofs.Mediatype
 open Verif Verif.Model.DataURI
 
-def stOf (s : MtState) : Nat := if s.inStr then 1 else 0
+def stOf (s : MtState) : Nat := if s.esc then 2 else if s.inStr then 1 else 0
 
-/-- invariant of the loop of `minify.Mediatype` after reading `pre`; `rm`, `cs` are the flags of the trigger
-    scan (`removed`, `closedSinceWs`) -/
-structure Inv (pre : List Char) (s : MtState) (rm cs : Bool) : Prop where
+/-- invariant of the loop of `minify.Mediatype` after reading `pre` -/
+structure Inv (pre : List Char) (s : MtState) : Prop where
   len : s.len = s.v.length
-  lastLe : s.last ≤ s.len
-  jLe : s.j ≤ s.len
-  guard : cs = false → s.last ≤ s.j
-  del : rm = false → s.delta = 0
+  escIn : s.esc = true → s.inStr = true
   out : s.inStr = false → ∃ pre1 pre2 closed tail, pre = pre1 ++ pre2 ∧ s.v = tail.reverse ++ closed.reverse ∧
       s.last = closed.length ∧ runTo 0 pre1 closed = some 0 ∧ img pre2 tail = true
-  ins : s.inStr = true → runTo 0 pre s.v.reverse = some 1
+  ins : s.inStr = true → runTo 0 pre s.v.reverse = some (if s.esc then 2 else 1)
 
 theorem lower_from (v closed tail : List Char) (last len : Nat) (hv : v = tail.reverse ++ closed.reverse)
     (hl : last = closed.length) (hlen : len = v.length) :
@@ -360,24 +357,6 @@ theorem lower_from (v closed tail : List Char) (last len : Nat) (hv : v = tail.r
     rw [hlen, hv]; simp; omega
   have h2 : last = closed.reverse.length := by rw [hl]; simp
   rw [h1, h2, hv, lowerSet_split, List.map_reverse]
-
-theorem lower_open (s : MtState) (closed tail : List Char) (hv : s.v = tail.reverse ++ closed.reverse)
-    (hl : s.last = closed.length) (hlen : s.len = s.v.length) (hj : s.j ≤ s.len)
-    (hg : s.delta = 0 ∨ s.last ≤ s.j) :
-    lowerRangeRev (max (s.last - s.delta) s.j) s.len s.len (lowerRangeRev s.last s.j s.len s.v)
-      = (tail.map toLower).reverse ++ closed.reverse := by
-  rw [lowerRangeRev_eq, lowerRangeRev_eq, lowerSet_comp, ← lower_from s.v closed tail s.last s.len hv hl hlen]
-  apply lowerSet_congr
-  · omega
-  · intro i hi
-    rcases hg with h | h
-    · simp only [h, Nat.sub_zero]
-      by_cases h1 : s.last ≤ i
-      · simp [h1, hi]; omega
-      · simp [h1]; omega
-    · by_cases h1 : s.last ≤ i
-      · simp [h1, hi]; omega
-      · simp [h1]; omega
 
 theorem lower_final (s : MtState) (closed tail : List Char) (hv : s.v = tail.reverse ++ closed.reverse)
     (hl : s.last = closed.length) (hlen : s.len = s.v.length) :
@@ -395,6 +374,16 @@ theorem run_snoc_str (pre v : List Char) (c : Char) (h : runTo 0 pre v = some 1)
   apply run_append pre [c] v [c] 0 1 1 h
   simp [runTo, hq, hb]
 
+theorem run_snoc_bs (pre v : List Char) (h : runTo 0 pre v = some 1) :
+    runTo 0 (pre ++ ['\\']) (v ++ ['\\']) = some 2 := by
+  apply run_append pre ['\\'] v ['\\'] 0 1 2 h
+  simp [runTo]
+
+theorem run_snoc_esc (pre v : List Char) (c : Char) (h : runTo 0 pre v = some 2) :
+    runTo 0 (pre ++ [c]) (v ++ [c]) = some 1 := by
+  apply run_append pre [c] v [c] 0 2 1 h
+  simp [runTo]
+
 theorem run_snoc_close (pre v : List Char) (h : runTo 0 pre v = some 1) :
     runTo 0 (pre ++ ['"']) (v ++ ['"']) = some 0 := by
   apply run_append pre ['"'] v ['"'] 0 1 0 h
@@ -406,167 +395,156 @@ theorem run_snoc_open (pre v : List Char) (h : runTo 0 pre v = some 0) :
   have : S.ws '"' = false := by decide
   simp [runTo, this]
 
-theorem step (pre : List Char) (s : MtState) (rm cs : Bool) (c : Char) (rest : List Char)
-    (hinv : Inv pre s rm cs) (hb : c ≠ '\\')
-    (ht : S.trigQuoteShiftAux s.inStr rm cs (c :: rest) = false) :
-    ∃ rm' cs', Inv (pre ++ [c]) (mtStep s c) rm' cs' ∧
-      S.trigQuoteShiftAux (mtStep s c).inStr rm' cs' rest = false ∧
+theorem step (pre : List Char) (s : MtState) (c : Char) (rest : List Char) (hinv : Inv pre s) :
+    Inv (pre ++ [c]) (mtStep s c) ∧
       S.quotesClosedAux (stOf s) (c :: rest) = S.quotesClosedAux (stOf (mtStep s c)) rest := by
-  unfold S.trigQuoteShiftAux at ht
-  rw [ws_eq] at ht
+  cases hes : s.esc
+  case true =>
+    -- the byte after a backslash inside a string
+    have hin := hinv.escIn hes
+    have hrun := hinv.ins hin
+    rw [hes] at hrun
+    have hm : mtStep s c = { s with v := c :: s.v, len := s.len + 1, esc := false } := by
+      unfold mtStep; simp only [hes, if_true]
+    rw [hm]
+    refine ⟨⟨by simp [hinv.len], (fun h => by cases h), ?_, ?_⟩, ?_⟩
+    · intro h; simp only [hin] at h; cases h
+    · intro _
+      have := run_snoc_esc _ _ c hrun
+      simpa using this
+    · simp [stOf, hes, hin, S.quotesClosedAux]
+  case false =>
   cases hin : s.inStr
   · -- outside a string
     obtain ⟨pre1, pre2, closed, tail, hpre, hv, hl, hrun, himg⟩ := hinv.out hin
-    rw [hin] at ht
     cases hw : isWs c
     · by_cases hq : c = '"'
       · -- opening quote
         subst hq
-        simp only [hw, Bool.not_false, Bool.true_and, Bool.false_eq_true, if_false, if_true,
-          Bool.or_eq_false_iff, Bool.and_eq_false_iff] at ht
-        have hg : s.delta = 0 ∨ s.last ≤ s.j := by
-          rcases ht.1 with h | h
-          · exact Or.inl (hinv.del h)
-          · exact Or.inr (hinv.guard h)
-        -- whichever branch of the 1024 test is taken, the tail is an image of `pre2`
         have hv1 : ∃ tail', img pre2 tail' = true ∧ tail'.length = tail.length ∧
-            (mtStep s '"').v = '"' :: (tail'.reverse ++ closed.reverse) ∧ (mtStep s '"').len = s.len + 1 ∧
-            (mtStep s '"').inStr = true ∧ (mtStep s '"').last = s.last ∧ (mtStep s '"').j = s.j ∧
-            (mtStep s '"').delta = s.delta := by
+            mtStep s '"' = { s with v := '"' :: (tail'.reverse ++ closed.reverse), len := s.len + 1, inStr := true } := by
           unfold mtStep
-          simp only [hin, hw, Bool.not_false, Bool.and_false, Bool.false_eq_true, if_false, if_true]
+          simp only [hes, hin, hw, Bool.not_false, Bool.and_false, Bool.false_eq_true, if_false, if_true]
           by_cases h1024 : s.len + s.delta - s.last < 1024
           · refine ⟨tail.map toLower, img_lower _ _ himg, by simp, ?_⟩
-            simp [h1024, lower_open s closed tail hv hl hinv.len hinv.jLe hg]
+            simp [h1024, lower_final s closed tail hv hl hinv.len]
           · refine ⟨tail, himg, rfl, ?_⟩
             simp [h1024, hv]
-        obtain ⟨tail', himg', htl, hv', hlen', hin', hlast', hj', hdel'⟩ := hv1
-        refine ⟨rm, cs, ⟨?_, ?_, ?_, ?_, ?_, ?_, ?_⟩, ?_, ?_⟩
-        · rw [hlen', hv', hinv.len, hv]; simp [htl]
-        · rw [hlast', hlen']; have := hinv.lastLe; omega
-        · rw [hj', hlen']; have := hinv.jLe; omega
-        · rw [hlast', hj']; exact hinv.guard
-        · rw [hdel']; exact hinv.del
-        · intro h; rw [hin'] at h; cases h
+        obtain ⟨tail', himg', htl, hm⟩ := hv1
+        rw [hm]
+        refine ⟨⟨?_, ?_, ?_, ?_⟩, ?_⟩
+        · simp only [List.length_cons, List.length_append, List.length_reverse, htl]
+          rw [hinv.len, hv]; simp
+        · intro h; simp only [hes] at h; cases h
+        · intro h; cases h
         · intro _
-          rw [hv', hpre]
+          simp only [hes, Bool.false_eq_true, if_false]
           have hr : runTo 0 (pre1 ++ pre2) (closed ++ tail') = some 0 :=
             run_append pre1 pre2 closed tail' 0 0 0 hrun (img_run _ _ himg')
           have := run_snoc_open _ _ hr
+          rw [hpre]
           simpa using this
-        · rw [hin']; exact ht.2
-        · simp [stOf, hin, hin', S.quotesClosedAux]
+        · simp [stOf, hes, hin, S.quotesClosedAux]
       · -- ordinary byte outside a string
-        simp only [hw, Bool.not_false, Bool.true_and, Bool.false_eq_true, if_false, hq] at ht
         have hm : mtStep s c = { s with v := c :: s.v, len := s.len + 1 } := by
           unfold mtStep
-          simp only [hin, hw, Bool.not_false, Bool.and_false, Bool.false_eq_true, if_false, hq]
+          simp only [hes, hin, hw, Bool.not_false, Bool.and_false, Bool.false_and, Bool.false_eq_true, if_false, hq]
         rw [hm]
-        refine ⟨rm, cs, ⟨?_, ?_, ?_, hinv.guard, hinv.del, ?_, ?_⟩, ?_, ?_⟩
-        · simp [hinv.len]
-        · have := hinv.lastLe; simp; omega
-        · have := hinv.jLe; simp; omega
+        refine ⟨⟨by simp [hinv.len], ?_, ?_, ?_⟩, ?_⟩
+        · intro h; simp only [hes] at h; cases h
         · intro _
           refine ⟨pre1, pre2 ++ [c], closed, tail ++ [c], by rw [hpre]; simp, by simp [hv], hl, hrun,
             img_snoc _ _ _ himg hw hq⟩
         · intro h; simp only [hin] at h; cases h
-        · simpa [hin] using ht
-        · simp [stOf, hin, S.quotesClosedAux, hq]
+        · simp [stOf, hes, hin, S.quotesClosedAux, hq]
     · -- whitespace outside a string: dropped
-      simp only [hw, Bool.not_false, Bool.and_self, if_true] at ht
-      have hm : mtStep s c = { s with j := s.len, delta := s.delta + 1 } := by
+      have hm : mtStep s c = { s with delta := s.delta + 1 } := by
         unfold mtStep
-        simp only [hin, hw, Bool.not_false, Bool.and_self, if_true]
+        simp only [hes, hin, hw, Bool.not_false, Bool.and_self, Bool.false_eq_true, if_false, if_true]
       rw [hm]
-      refine ⟨true, false, ⟨hinv.len, hinv.lastLe, Nat.le_refl _, (fun _ => hinv.lastLe), (fun h => by cases h), ?_, ?_⟩, ?_, ?_⟩
+      refine ⟨⟨hinv.len, ?_, ?_, ?_⟩, ?_⟩
+      · intro h; simp only [hes] at h; cases h
       · intro _
         exact ⟨pre1, pre2 ++ [c], closed, tail, by rw [hpre]; simp, hv, hl, hrun, img_snoc_ws _ _ _ himg hw⟩
       · intro h; simp only [hin] at h; cases h
-      · simpa [hin] using ht
-      · simp [stOf, hin, S.quotesClosedAux, ws_not_quote hw]
-  · -- inside a string
+      · simp [stOf, hes, hin, S.quotesClosedAux, ws_not_quote hw]
+  · -- inside a string, not escaped
     have hrun := hinv.ins hin
-    rw [hin] at ht
-    simp only [Bool.not_true, Bool.false_and, Bool.false_eq_true, if_false] at ht
+    rw [hes] at hrun
+    simp only [Bool.false_eq_true, if_false] at hrun
     by_cases hq : c = '"'
     · subst hq
-      simp only [if_true] at ht
       have hm : mtStep s '"' = { s with v := '"' :: s.v, len := s.len + 1, inStr := false, last := s.len + 1 } := by
         unfold mtStep
-        simp only [hin, Bool.not_true, Bool.false_and, Bool.false_eq_true, if_false, if_true]
+        simp only [hes, hin, Bool.not_true, Bool.false_and, Bool.false_eq_true, if_false, if_true]
       rw [hm]
-      refine ⟨rm, true, ⟨?_, ?_, ?_, (fun h => by cases h), hinv.del, ?_, ?_⟩, ?_, ?_⟩
-      · simp [hinv.len]
-      · simp
-      · have := hinv.jLe; simp; omega
+      refine ⟨⟨by simp [hinv.len], ?_, ?_, ?_⟩, ?_⟩
+      · intro h; simp only [hes] at h; cases h
       · intro _
         refine ⟨pre ++ ['"'], [], ('"' :: s.v).reverse, [], by simp, by simp, by simp [hinv.len], ?_, by simp [img]⟩
         have := run_snoc_close _ _ hrun
         simpa using this
       · intro h; cases h
-      · simpa using ht
-      · simp [stOf, hin, S.quotesClosedAux]
-    · simp only [hq, if_false] at ht
-      have hm : mtStep s c = { s with v := c :: s.v, len := s.len + 1 } := by
-        unfold mtStep
-        simp only [hin, Bool.not_true, Bool.false_and, Bool.false_eq_true, if_false, hq]
-      rw [hm]
-      refine ⟨rm, cs, ⟨?_, ?_, ?_, hinv.guard, hinv.del, ?_, ?_⟩, ?_, ?_⟩
-      · simp [hinv.len]
-      · have := hinv.lastLe; simp; omega
-      · have := hinv.jLe; simp; omega
-      · intro h; simp only [hin] at h; cases h
-      · intro _
-        have := run_snoc_str _ _ c hrun hq hb
-        simpa using this
-      · simpa [hin] using ht
-      · simp [stOf, hin, S.quotesClosedAux, hq, hb]
+      · simp [stOf, hes, hin, S.quotesClosedAux]
+    · by_cases hb : c = '\\'
+      · subst hb
+        have hm : mtStep s '\\' = { s with v := '\\' :: s.v, len := s.len + 1, esc := true } := by
+          unfold mtStep
+          simp only [hes, hin, Bool.not_true, Bool.false_and, Bool.false_eq_true, if_false, hq, Bool.true_and,
+            decide_true, if_true]
+        rw [hm]
+        refine ⟨⟨by simp [hinv.len], fun _ => hin, ?_, ?_⟩, ?_⟩
+        · intro h; simp only [hin] at h; cases h
+        · intro _
+          have := run_snoc_bs _ _ hrun
+          simpa using this
+        · simp [stOf, hes, hin, S.quotesClosedAux]
+      · have hm : mtStep s c = { s with v := c :: s.v, len := s.len + 1 } := by
+          unfold mtStep
+          simp only [hes, hin, Bool.not_true, Bool.false_and, Bool.false_eq_true, if_false, hq, Bool.true_and,
+            hb, decide_false]
+        rw [hm]
+        refine ⟨⟨by simp [hinv.len], ?_, ?_, ?_⟩, ?_⟩
+        · intro h; simp only [hes] at h; cases h
+        · intro h; simp only [hin] at h; cases h
+        · intro _
+          simp only [hes, Bool.false_eq_true, if_false]
+          have := run_snoc_str _ _ c hrun hq hb
+          simpa using this
+        · simp [stOf, hes, hin, S.quotesClosedAux, hq, hb]
 
 end Verif.Proofs.Mediatype
 
 namespace Verif.Proofs.Mediatype
 open Verif Verif.Model.DataURI
 
-theorem fold_inv (rest pre : List Char) (s : MtState) (rm cs : Bool) (hinv : Inv pre s rm cs)
-    (hq : S.quotesClosedAux (stOf s) rest = true) (ht : S.trigQuoteShiftAux s.inStr rm cs rest = false)
-    (hb : '\\' ∉ rest) :
-    ∃ rm' cs', Inv (pre ++ rest) (rest.foldl mtStep s) rm' cs' ∧ (rest.foldl mtStep s).inStr = false := by
-  induction rest generalizing pre s rm cs with
+theorem fold_inv (rest pre : List Char) (s : MtState) (hinv : Inv pre s)
+    (hq : S.quotesClosedAux (stOf s) rest = true) :
+    Inv (pre ++ rest) (rest.foldl mtStep s) ∧ (rest.foldl mtStep s).inStr = false := by
+  induction rest generalizing pre s with
   | nil =>
-    refine ⟨rm, cs, by simpa using hinv, ?_⟩
+    refine ⟨by simpa using hinv, ?_⟩
     simp only [List.foldl_nil]
     cases h : s.inStr
     · rfl
-    · simp [S.quotesClosedAux, stOf, h] at hq
+    · cases he : s.esc <;> simp [S.quotesClosedAux, stOf, h, he] at hq
   | cons c r ih =>
-    have hcb : c ≠ '\\' := fun e => hb (by simp [e])
-    have hrb : '\\' ∉ r := fun e => hb (by simp [e])
-    obtain ⟨rm', cs', hinv', ht', hq'⟩ := step pre s rm cs c r hinv hcb ht
+    obtain ⟨hinv', hq'⟩ := step pre s c r hinv
     rw [hq'] at hq
-    obtain ⟨rm'', cs'', h1, h2⟩ := ih (pre ++ [c]) (mtStep s c) rm' cs' hinv' hq ht' hrb
-    refine ⟨rm'', cs'', ?_, ?_⟩
-    · simpa using h1
-    · simpa using h2
+    obtain ⟨h1, h2⟩ := ih (pre ++ [c]) (mtStep s c) hinv' hq
+    exact ⟨by simpa using h1, by simpa using h2⟩
 
-theorem inv_init : Inv [] {} false false where
+theorem inv_init : Inv [] {} where
   len := rfl
-  lastLe := Nat.le_refl _
-  jLe := Nat.le_refl _
-  guard := fun _ => Nat.le_refl _
-  del := fun _ => rfl
+  escIn := fun h => by cases h
   out := fun _ => ⟨[], [], [], [], rfl, rfl, rfl, by simp [runTo], by simp [img]⟩
   ins := fun h => by cases h
 
 /-- **the media type helper only lower-cases and strips whitespace outside quoted strings**, for every input
-    whose quoted strings are closed, outside the two known defects -/
-theorem mediatype_ok (b : List Char) (hc : S.quotesClosed b = true) (g1 : S.trigQuoteShift b = false)
-    (g2 : S.trigBackslash b = false) : S.specMediatypeOK 0 b (mediatype b) = true := by
-  have hb : '\\' ∉ b := by
-    intro hm
-    have : b.contains '\\' = true := by simpa using hm
-    unfold S.trigBackslash at g2
-    rw [this] at g2; cases g2
-  obtain ⟨rm, cs, hinv, hin⟩ := fold_inv b [] {} false false inv_init hc g1 hb
+    whose quoted strings are closed -/
+theorem mediatype_ok (b : List Char) (hc : S.quotesClosed b = true) :
+    S.specMediatypeOK 0 b (mediatype b) = true := by
+  obtain ⟨hinv, hin⟩ := fold_inv b [] {} inv_init hc
   obtain ⟨pre1, pre2, closed, tail, hpre, hv, hl, hrun, himg⟩ := hinv.out hin
   unfold mediatype
   simp only []
